@@ -479,9 +479,17 @@ def check_sum_clip(ctx):
             cover = it == "self[1:]"
         elif isinstance(iv, ast.Call) and (fv.callee(iv) or "").endswith("ScalarField") and len(iv.args) == 1 and U(iv.args[0]) == grid_p:
             cover = it == "self"
-    ctx.decide(bool(ok_term and cover), "SUMCLIP", site + ":sum", (fi, lp),
-               "every member is rendered once on the grid with the default levels and added",
-               f"sum does not cover every member exactly once (initial value `{U(init[0])[:60] if init else '?'}`, loop over `{it}`, term `{U(val)[:60]}`)")
+    uncond = any(x is ups[0] for x in lp.body)
+    if ok_term and cover and not uncond:
+        si_ = stmt_index(fv)
+        g = [U(t) for t, p in si_.guards(ups[0]) if any(x is t for x in ast.walk(lp))]
+        ctx.violate("SUMCLIP", site + ":sum", (fi, ups[0]),
+                    f"a member's field is added only under `{g[0] if g else '?'}`: members failing the test are silently not rendered (e.g. a droplet whose centre lies outside the box along a periodic axis still covers cells inside it)")
+        cover = None
+    if cover is not None:
+        ctx.decide(bool(ok_term and cover), "SUMCLIP", site + ":sum", (fi, lp),
+                   "every member is rendered once on the grid with the default levels and added",
+                   f"sum does not cover every member exactly once (initial value `{U(init[0])[:60] if init else '?'}`, loop over `{it}`, term `{U(val)[:60]}`)")
     # clip: in place, bounds 0 and 1, after the loop, before the return
     clips = [c for c in fv.calls() if (fv.callee(c) or "").endswith("numpy.clip") or (isinstance(c.func, ast.Attribute) and c.func.attr == "clip")]
     good = []
